@@ -30,6 +30,12 @@ def cases(tier, seed):
         c["kind"] = "gen"
         c["sel_seed"] = seed * 7 + i
         c["budget"] = 170 if tier == "quick" else 2000
+    # a deep, narrow hierarchy: 11 levels, so that the directory names do not sort like the level numbers
+    # (Level_10 comes between Level_1 and Level_2)
+    for j, nd in enumerate((3, 2) if tier == "thorough" else ((3, 2)[seed % 2],)):
+        cs.append({"kind": "gen", "gen": dict(seed=seed + 5150 + j, ndims=nd, nlevels=1, base=[2] * nd, bf=2, maxsz=2,
+                                              names=["f0", "f1", "f2"], payload="random", nfiles=1),
+                   "fmt": {}, "deepen": 11, "sel_seed": seed * 7 + 5150 + j, "budget": 170})
     if tier == "thorough":
         for a in ("example_plt_2d", "example_plt_3d", "plt1_Y", "plt2_F", "plt_eb_3d"):
             cs.append({"kind": "asset", "asset": a, "sel_seed": seed, "budget": 120})
@@ -107,6 +113,12 @@ def field_selectors(names, keys, rng, budget):
     if any(mask):
         out.append((f"boolmask", mask, [i for i, v in enumerate(mask) if v], False))
         out.append((f"npboolmask", np.array(mask), [i for i, v in enumerate(mask) if v], False))
+    if nf >= 2:
+        # a mask whose False entries all come first (what `names >= "Y("` or `arange(nf) >= k` gives): read as
+        # the integers 0 / 1 it is a non-decreasing "index list"
+        k = rng.randint(1, nf - 1)
+        out.append((f"npboolmask:sorted{k}", np.arange(nf) >= k, list(range(k, nf)), False))
+        out.append((f"boolmask:sorted{k}", [i >= k for i in range(nf)], list(range(k, nf)), False))
     out.append(("int32arr", np.array([0, nf - 1][:nf], dtype=np.int32), [0, nf - 1][:nf], False))
     # unsupported forms without any reading: only an exception is acceptable
     out.append(("oob:int", nf, None, False))
@@ -404,6 +416,8 @@ def run_case(case, work, rec):
     # monitors: contracts evaluated in this case, pool log
     for k, v in contracts.COUNTS.items():
         rec.count("calls:" + k, v - n0.get(k, 0))
+    if nl >= 11:
+        rec.count("deep_hierarchies")
     rec.count("pool_calls", len(pools.CTL.calls))
     rec.count("pool_calls_nonidentity", sum(1 for c in pools.CTL.calls if list(c[2]) != sorted(c[2])))
     for p in pools.check_log():
